@@ -1150,6 +1150,20 @@ returns, whatever the fuel -/
 theorem C06_rename_search_unguarded_witness (fuel : Nat) : renameSearch false (fun i => [1 - i]) fuel [] 0 = none :=
   renameSearch_unguarded_cycle2 fuel [] 0 (by omega)
 
+/-- **C06, the remaining walks over possibly cyclic graphs**: `SCHEMA_get_entities_use` and `SCOPE_find` over whole-schema USE
+clauses (mutual USE between schemas is legal EXPRESS), `SCOPE_dfs` over the supertypes (both generators),
+`TYPE_resolve_` over defined types that name each other, `RENAMEresolve` over item-wise USE/REFERENCE chains (its inner
+search is `C06_rename_search_terminates`).  Each returns on every graph, because each marks the node before it recurses
+and the mark stays: regenerated per function — the guard and the order of mark and recursion; that nothing in the body
+starts another search (the set of functions that increment `__SCOPE_search_id` is regenerated too); for the resolve marks
+that "in progress" is only cleared after "failed" or the result has been set. -/
+theorem C06_import_graph_walks_terminate (w : String) (mf : Bool) (hm : (w, mf) ∈ graphWalks)
+    (u : List Nat) (h : Hier) (hc : Closed u h) (marked : List Nat) (e : Nat) (he : e ∈ u) :
+    ∃ m, visit mf h (u.length + 1) marked e = some m := by
+  have hall : graphWalks.all (fun p => p.2) = true := by decide
+  have : mf = true := List.all_eq_true.mp hall (w, mf) hm
+  rw [this]; exact visit_terminates u h hc marked e he
+
 /-! ## nesting depth -/
 
 theorem Tree.height_pos (t : Tree) : 1 ≤ t.height := by
@@ -1278,5 +1292,301 @@ theorem C06_exit_small (t : Tool) (v : Verdict) (s : Nat) (h : exitStatus exitCf
     · simp; omega
 
 example : exitStatus exitCfg .exppp .errors = some 1 := by decide
+
+/-! ## exit-status discipline
+
+The run of `main` is interpreted over a finite abstraction of the state (`AState`); the abstraction commutes with every
+operation, so what is decided for all 64 abstract states and all kinds of reports holds for every real run. -/
+
+structure AState where
+  nonempty : Bool   -- printed + pending ≥ 1
+  pzero : Bool      -- pending = 0
+  staged : Bool
+  occurred : Bool
+  errIssued : Bool
+  trailer : Bool    -- trailer ≥ 1
+  deriving DecidableEq, Repr
+
+def absS (s : RState) : AState :=
+  ⟨Nat.ble 1 (s.printed + s.pending), s.pending == 0, s.staged, s.occurred, s.errIssued, Nat.ble 1 s.trailer⟩
+
+def AState.step : RAct → AState → AState
+  | .print, a => { a with nonempty := true }
+  | .buf, a => { a with staged := true }
+  | .commit, a => if a.staged then { a with nonempty := true, pzero := false, staged := false } else a
+  | .setOccurred, a => { a with occurred := true }
+  | .flush, a => { a with pzero := true }
+
+def AState.ops : Ops AState where
+  step := AState.step
+  occurred := fun a => a.occurred
+  markErr := fun a => { a with errIssued := true }
+  markTrailer := fun a => { a with trailer := true }
+
+/-- `f` commutes with the operations -/
+structure Hom {σ τ : Type} (o1 : Ops σ) (o2 : Ops τ) (f : σ → τ) : Prop where
+  step : ∀ a s, f (o1.step a s) = o2.step a (f s)
+  occurred : ∀ s, o1.occurred s = o2.occurred (f s)
+  markErr : ∀ s, f (o1.markErr s) = o2.markErr (f s)
+  markTrailer : ∀ s, f (o1.markTrailer s) = o2.markTrailer (f s)
+
+theorem absS_hom : Hom RState.ops AState.ops absS where
+  step := by
+    intro a s
+    obtain ⟨p, q, stg, oc, ei, tr⟩ := s
+    cases a <;> cases stg <;> simp [absS, RState.ops, AState.ops, RAct.step, AState.step] <;> (try omega)
+  occurred := by intro s; rfl
+  markErr := by intro s; rfl
+  markTrailer := by
+    intro s
+    obtain ⟨p, q, stg, oc, ei, tr⟩ := s
+    simp [absS, RState.ops, AState.ops]
+
+section
+variable {σ τ : Type} {o1 : Ops σ} {o2 : Ops τ} {f : σ → τ}
+
+theorem runActs_hom (h : Hom o1 o2 f) : ∀ (l : List RAct) (s : σ), f (runActs o1 l s) = runActs o2 l (f s) := by
+  intro l
+  induction l with
+  | nil => intro s; rfl
+  | cons a l ih => intro s; simp [runActs, ih, h.step]
+
+theorem doFail_hom (h : Hom o1 o2 f) (c : ExitDiscCfg) (s : σ) :
+    (f (doFail o1 c s).1, (doFail o1 c s).2) = doFail o2 c (f s) := by
+  simp [doFail, h.markTrailer, runActs_hom h]
+
+theorem doSucceed_hom (h : Hom o1 o2 f) (c : ExitDiscCfg) (s : σ) :
+    (f (doSucceed o1 c s).1, (doSucceed o1 c s).2) = doSucceed o2 c (f s) := by
+  simp [doSucceed, h.markTrailer, runActs_hom h]
+
+theorem reportL_hom (h : Hom o1 o2 f) (c : ExitDiscCfg) (b : Bool) (l : Lvl) (sym full : Bool) (s : σ) :
+    (f (reportL o1 c b l sym full s).1, (reportL o1 c b l sym full s).2) = reportL o2 c b l sym full (f s) := by
+  obtain ⟨e, x, d⟩ := l
+  simp only [reportL]
+  cases hx : (x || ((pickFn c b sym).alsoWhenFull && full)) <;> cases e <;> cases d <;>
+    simp [doFail, h.markTrailer, h.markErr, runActs_hom h]
+
+theorem runLevels_hom (h : Hom o1 o2 f) (c : ExitDiscCfg) (b : Bool) :
+    ∀ (evs : List (Lvl × Bool × Bool)) (s : σ),
+      (f (runLevels o1 c b evs s).1, (runLevels o1 c b evs s).2) = runLevels o2 c b evs (f s) := by
+  intro evs
+  induction evs with
+  | nil => intro s; rfl
+  | cons e rest ih =>
+    intro s
+    obtain ⟨l, sym, full⟩ := e
+    have hr := reportL_hom h c b l sym full s
+    simp only [runLevels]
+    cases h1 : reportL o1 c b l sym full s with
+    | mk s1 st =>
+      rw [h1] at hr
+      cases st with
+      | some x => simp at hr; simp [← hr]
+      | none => simp at hr; simp [← hr, ih]
+
+theorem runPhases_hom (h : Hom o1 o2 f) (c : ExitDiscCfg) (b : Bool) :
+    ∀ (ps : List (List (Lvl × Bool × Bool) × Bool)) (s : σ),
+      (f (runPhases o1 c b ps s).1, (runPhases o1 c b ps s).2) = runPhases o2 c b ps (f s) := by
+  intro ps
+  induction ps with
+  | nil => intro s; exact doSucceed_hom h c s
+  | cons p rest ih =>
+    intro s
+    obtain ⟨evs, chk⟩ := p
+    have hr := runLevels_hom h c b evs s
+    simp only [runPhases]
+    cases h1 : runLevels o1 c b evs s with
+    | mk s1 st =>
+      rw [h1] at hr
+      cases st with
+      | some x => simp at hr; simp [← hr]
+      | none =>
+        simp at hr
+        simp only [← hr, h.occurred]
+        cases hc : (chk && o2.occurred (f s1))
+        · simp [ih]
+        · simp; exact doFail_hom h c s1
+end
+
+/-! ### what is decided on the abstraction -/
+
+def allBool (p : Bool → Bool) : Bool := p true && p false
+
+theorem allBool_spec {p : Bool → Bool} (h : allBool p = true) : ∀ b, p b = true := by
+  intro b; cases b <;> simp_all [allBool]
+
+def allAState (p : AState → Bool) : Bool :=
+  allBool fun a => allBool fun b => allBool fun c => allBool fun d => allBool fun e => allBool fun g => p ⟨a, b, c, d, e, g⟩
+
+theorem allAState_spec {p : AState → Bool} (h : allAState p = true) : ∀ a, p a = true := by
+  intro ⟨a, b, c, d, e, g⟩
+  exact allBool_spec (allBool_spec (allBool_spec (allBool_spec (allBool_spec (allBool_spec h a) b) c) d) e) g
+
+def allLvl (p : Lvl → Bool) : Bool := allBool fun a => allBool fun b => allBool fun c => p ⟨a, b, c⟩
+
+theorem allLvl_spec {p : Lvl → Bool} (h : allLvl p = true) : ∀ l, p l = true := by
+  intro ⟨a, b, c⟩
+  exact allBool_spec (allBool_spec (allBool_spec h a) b) c
+
+/-- between two reports: `ERRORoccurred` only with a diagnostic issued, every error diagnostic sets it, nothing half-written
+in the buffer, and nothing in the buffer at all without -B -/
+def ainvB (buffered : Bool) (a : AState) : Bool :=
+  (!a.occurred || a.nonempty) && (!a.errIssued || a.occurred) && !a.staged && (buffered || a.pzero)
+
+/-- how a run may end: with the failure status after at least one diagnostic and the trailer, nothing left in the buffer;
+with the success status, no error diagnostic issued, nothing left in the buffer; or in abort() after the flushed diagnostic -/
+def finalOk (c : ExitDiscCfg) (r : AState × Option Stop) : Bool :=
+  match r.2 with
+  | none => false
+  | some .aborted => r.1.nonempty && r.1.pzero
+  | some (.exited st) =>
+    if st == c.failStatus then r.1.nonempty && r.1.pzero && r.1.trailer
+    else st == c.succStatus && r.1.pzero && !r.1.errIssued && r.1.trailer
+
+def stopOk (c : ExitDiscCfg) (r : AState × Option Stop) : Bool :=
+  match r.2 with
+  | none => true
+  | some _ => finalOk c r
+
+def stepOk (c : ExitDiscCfg) : Bool :=
+  allBool fun b => allLvl fun l => allBool fun sym => allBool fun full => allAState fun a =>
+    !ainvB b a || (ainvB b (reportL AState.ops c b l sym full a).1 && stopOk c (reportL AState.ops c b l sym full a))
+
+def finishOk (c : ExitDiscCfg) : Bool :=
+  allBool fun b => allAState fun a =>
+    !ainvB b a || (if a.occurred then finalOk c (doFail AState.ops c a) else finalOk c (doSucceed AState.ops c a))
+
+def discCfgOk (c : ExitDiscCfg) : Bool :=
+  stepOk c && finishOk c && c.failStatus != c.succStatus && c.failHooks == 0 && c.strayWrites == 0 &&
+    c.checks.getD 0 false && c.checks.getD 1 false && c.checks.getD 2 false
+
+theorem runLevels_ok {c : ExitDiscCfg} (hs : stepOk c = true) (b : Bool) :
+    ∀ (evs : List (Lvl × Bool × Bool)) (a : AState), ainvB b a = true →
+      ainvB b (runLevels AState.ops c b evs a).1 = true ∧ stopOk c (runLevels AState.ops c b evs a) = true := by
+  intro evs
+  induction evs with
+  | nil => intro a ha; exact ⟨ha, rfl⟩
+  | cons e rest ih =>
+    intro a ha
+    obtain ⟨l, sym, full⟩ := e
+    have h1 := allAState_spec (allBool_spec (allBool_spec (allLvl_spec (allBool_spec hs b) l) sym) full) a
+    simp only [ha, Bool.not_true, Bool.false_or, Bool.and_eq_true] at h1
+    simp only [runLevels]
+    cases hr : reportL AState.ops c b l sym full a with
+    | mk a1 st =>
+      rw [hr] at h1
+      cases st with
+      | some x => exact h1
+      | none => exact ih a1 h1.1
+
+theorem runPhases_ok {c : ExitDiscCfg} (hs : stepOk c = true) (hf : finishOk c = true) (b : Bool) :
+    ∀ (ps : List (List (Lvl × Bool × Bool) × Bool)), (∀ p ∈ ps, p.2 = true) →
+      ∀ (a : AState), ainvB b a = true → a.occurred = false → finalOk c (runPhases AState.ops c b ps a) = true := by
+  intro ps
+  induction ps with
+  | nil =>
+    intro _ a ha ho
+    have h1 := allAState_spec (allBool_spec hf b) a
+    simp only [ha, Bool.not_true, Bool.false_or, ho] at h1
+    simpa [runPhases] using h1
+  | cons p rest ih =>
+    intro hp a ha _
+    obtain ⟨evs, chk⟩ := p
+    have hchk : chk = true := hp (evs, chk) (List.mem_cons_self)
+    have hl := runLevels_ok hs b evs a ha
+    simp only [runPhases]
+    cases hr : runLevels AState.ops c b evs a with
+    | mk a1 st =>
+      rw [hr] at hl
+      cases st with
+      | some x => simpa [stopOk] using hl.2
+      | none =>
+        have h1 := allAState_spec (allBool_spec hf b) a1
+        simp only [hl.1, Bool.not_true, Bool.false_or] at h1
+        subst hchk
+        cases ho : a1.occurred with
+        | true => simpa [AState.ops, ho] using h1
+        | false =>
+          simp only [AState.ops, ho, Bool.and_false]
+          exact ih (fun p hpm => hp p (List.mem_cons_of_mem _ hpm)) a1 hl.1 ho
+
+/-- every run of `main` ends in one of the three ways of `finalOk` (read on the abstraction of the real state) -/
+theorem runMain_ok {c : ExitDiscCfg} (hc : discCfgOk c = true) (buffered : Bool) (enabled : Nat → Bool)
+    (parse resolve backend : List Ev) :
+    finalOk c (absS (runMain c buffered enabled parse resolve backend).1, (runMain c buffered enabled parse resolve backend).2) = true := by
+  simp only [discCfgOk, Bool.and_eq_true] at hc
+  obtain ⟨⟨⟨⟨⟨⟨⟨hs, hf⟩, _⟩, _⟩, _⟩, h0⟩, h1⟩, h2⟩ := hc
+  unfold runMain
+  rw [runPhases_hom absS_hom]
+  apply runPhases_ok hs hf
+  · intro p hp
+    simp only [List.mem_cons, List.not_mem_nil, or_false] at hp
+    rcases hp with rfl | rfl | rfl <;> assumption
+  · cases buffered <;> rfl
+  · rfl
+
+/-- **C06, exit status ⇒ diagnostic**: whatever is reported during parse, resolve and back end, with or without -B and
+under any setting of -w and -i: a run that ends with a status other than the success status ends with the failure status,
+at least one diagnostic is on stderr, followed by the "Errors in input" trailer, and nothing is left in the message
+buffer.  (Regenerated: the action sequences of the branches of ERRORreport and ERRORvreport_with_symbol, the severities
+of LibErrors, EXPRESS_fail, the three `if( ERRORoccurred )` tests of main, that no tool installs an EXPRESSfail hook
+and that `ERRORoccurred` is assigned nowhere else.) -/
+theorem C06_nonzero_exit_has_diagnostic (buffered : Bool) (enabled : Nat → Bool) (parse resolve backend : List Ev)
+    (s : RState) (st : Nat) (h : runMain exitDiscCfg buffered enabled parse resolve backend = (s, some (.exited st)))
+    (hne : st ≠ exitDiscCfg.succStatus) :
+    st = exitDiscCfg.failStatus ∧ 1 ≤ s.printed ∧ s.pending = 0 ∧ 1 ≤ s.trailer := by
+  have hc : discCfgOk exitDiscCfg = true := by decide
+  have hm := runMain_ok hc buffered enabled parse resolve backend
+  rw [h] at hm
+  simp only [finalOk] at hm
+  by_cases hfs : st = exitDiscCfg.failStatus
+  · simp [hfs, absS] at hm
+    obtain ⟨⟨h1, h2⟩, h3⟩ := hm
+    exact ⟨hfs, by omega, h2, h3⟩
+  · simp [hfs, hne] at hm
+
+/-- **C06, success status ⇒ no error and nothing lost**: a run that ends with the success status has issued no
+diagnostic of severity ERROR or higher, and no (warning) message is left unprinted in the -B buffer. -/
+theorem C06_zero_exit_no_error_nothing_buffered (buffered : Bool) (enabled : Nat → Bool) (parse resolve backend : List Ev)
+    (s : RState) (h : runMain exitDiscCfg buffered enabled parse resolve backend = (s, some (.exited exitDiscCfg.succStatus))) :
+    s.errIssued = false ∧ s.pending = 0 := by
+  have hc : discCfgOk exitDiscCfg = true := by decide
+  have hm := runMain_ok hc buffered enabled parse resolve backend
+  rw [h] at hm
+  have hne : (exitDiscCfg.succStatus == exitDiscCfg.failStatus) = false := by decide
+  simp [finalOk, hne, absS] at hm
+  exact ⟨hm.1.2, hm.1.1⟩
+
+/-- **C06, abort() only after the diagnostic**: a run that ends in abort() (severity DUMP) has its diagnostic on stderr,
+the buffer flushed; and every run ends — in an exit status or in abort(). -/
+theorem C06_run_ends_and_abort_after_diagnostic (buffered : Bool) (enabled : Nat → Bool) (parse resolve backend : List Ev) :
+    (∃ s stop, runMain exitDiscCfg buffered enabled parse resolve backend = (s, some stop)) ∧
+    ∀ s, runMain exitDiscCfg buffered enabled parse resolve backend = (s, some .aborted) → 1 ≤ s.printed ∧ s.pending = 0 := by
+  have hc : discCfgOk exitDiscCfg = true := by decide
+  have hm := runMain_ok hc buffered enabled parse resolve backend
+  constructor
+  · cases hr : runMain exitDiscCfg buffered enabled parse resolve backend with
+    | mk s stop =>
+      rw [hr] at hm
+      cases stop with
+      | none => simp [finalOk] at hm
+      | some x => exact ⟨s, x, rfl⟩
+  · intro s h
+    rw [h] at hm
+    simp [finalOk, absS] at hm
+    omega
+
+/-- **C06, the other exits**: every other `exit( )` in the sources of the four tools with a status that is not literally
+0 comes after output to stderr in the same function (or in a function it calls), `main` tests the usage function pointer
+before calling it, and only check-express relies on that. -/
+theorem C06_every_exit_site_prints :
+    (∀ site ∈ exitSites, site.2.1 ≠ "0" → site.2.2 = true) ∧ usageFallback = true := by
+  decide
+
+/-- the configurations found before the fixes: the success path did not flush (warnings of a clean run lost with -B) -/
+theorem C06_success_without_flush_witness :
+    let c := { exitDiscCfg with succActs := [] }
+    ∃ s, runMain c true (fun _ => true) [⟨4, true, false⟩] [] [] = (s, some (.exited c.succStatus)) ∧ s.pending = 1 ∧ s.printed = 0 := by
+  refine ⟨_, rfl, ?_, ?_⟩ <;> decide
 
 end StepModel.C06
